@@ -87,3 +87,8 @@ CHECKS["C19"] = ("exploration",
   "Runs of ant_system and max_min_ant_system over TSP sizes 3-8, three kinds of distance matrices (ratios up to 1e9), the whole parameter ranges and up to 200 iterations are audited: every generation must yield ants + 1 unevaluated permutations starting at city 0 with a greedy first tour w.r.t. the matrix observed before; every update must equal, entry by entry within 4 ulp, evaporation followed by symmetric reinforcement of exactly the consecutive edges of the rewarded tours (all sampled tours / the best sampled tour), stay finite and non-negative and, for the max-min variant, inside [min, max] everywhere off the diagonal.",
   "Hooks: step observer, ACO parameter constructors. Tour length = objective value of the tour. Prepared matrices stay within reachable magnitudes (<= 1e6).",
   "DESIGN.md §6 C19")
+CHECKS["C20"] = ("exploration",
+  "proptest over prepared states for the four elementary reactions against an energy-conservation invariant and a model of index effects, plus real_cro runs audited around every update step through the step observer",
+  "The four update components are executed on generated states (1-6 molecules, objective values, kinetic energies and buffer from zero to large, all reactant choices incl. equal-by-value reactants, products better / equal / worse / far worse so that accepted, rejected and buffer-assisted branches all occur): the total of objective values, kinetic energies and buffer must be conserved to 1e-9 relative, no energy may become negative, the molecule list must stay aligned with the population with products at the modelled positions, exactly the reactant and product populations are consumed and a rejected reaction changes nothing but hit counters. CRO template runs get the same audit around every update.",
+  "Hook: step observer for the run part. Acceptance with partial buffer help is random (only the two certain regions are asserted).",
+  "DESIGN.md §6 C20")
